@@ -50,6 +50,9 @@ pub struct Case {
     /// the originator hands out a transaction that already carries the wallet's own signatures
     #[serde(default)]
     pub presigned: bool,
+    /// the artefact travels in the pre-Alonzo shape `[body, witness set, auxiliary data / null]` (no validity flag)
+    #[serde(default)]
+    pub legacy_shape: bool,
 }
 
 pub struct C04;
@@ -165,7 +168,7 @@ fn gen(seed: u64, tier: Tier) -> Case {
             _ => SOp::Merge { from: r.below(NODES as u64) as u8, to: node },
         });
     }
-    Case { session, foreign, ops, hash_seed: r.next(), presigned: r.chance(1, 2) }
+    Case { session, foreign, ops, hash_seed: r.next(), presigned: r.chance(1, 2), legacy_shape: r.chance(1, 6) }
 }
 
 #[derive(Clone)]
@@ -204,7 +207,23 @@ fn boot_items(v: &TxView) -> Option<Vec<Vec<u8>>> {
     Some(out)
 }
 
+/// `[body, ws, aux]` (pre-Alonzo shape) read as `[body, ws, true, aux]`: the spans are the same bytes
+fn with_validity_flag(bytes: &[u8]) -> Option<Vec<u8>> {
+    let root = cbor::parse(bytes).ok()?;
+    let a = root.as_array()?;
+    if a.len() != 3 {
+        return None;
+    }
+    let mut b = vec![0x84];
+    b.extend_from_slice(&bytes[a[0].start..a[1].end]);
+    b.push(0xf5);
+    b.extend_from_slice(&bytes[a[2].start..a[2].end]);
+    Some(b)
+}
+
 fn facts(bytes: &[u8]) -> Option<Facts> {
+    let four = with_validity_flag(bytes);
+    let bytes = four.as_deref().unwrap_or(bytes);
     let v = TxView::parse(bytes).ok()?;
     let body = v.span(v.body()).to_vec();
     let hash = blake2b256(&body);
@@ -423,6 +442,18 @@ fn execute(c: &Case) -> Outcome {
                 out.count("fault.F8_foreign_encoded_artefacts", 1);
             }
             original = b;
+        }
+    }
+    if c.legacy_shape {
+        // an older producer: no validity flag (definite 3-element array around the same spans)
+        if let Ok(v) = TxView::parse(&original) {
+            if v.root.idx(2).and_then(|x| x.as_bool()) == Some(true) && !original.is_empty() && original[0] == 0x84 {
+                let mut b = vec![0x83];
+                b.extend_from_slice(&original[v.body().start..v.ws().end]);
+                b.extend_from_slice(v.span(v.aux()));
+                original = b;
+                out.count("fault.F8_pre_alonzo_transaction_shape", 1);
+            }
         }
     }
     datum_relay(&original, &mut out);
